@@ -61,7 +61,7 @@ where
     .map (pairs xs)
 
 partial def showV : V → String
-  | .undef => "U"
+  | .undef | .silent => "U"
   | .none => "N"
   | .bool b => if b then "B1" else "B0"
   | .int n => s!"I{n}"
@@ -103,14 +103,50 @@ mutual
       match n.toNat?, parseE r with
       | some n, some (e, r) => (parseC n r).map fun (ops, r) => (.cmp e ops, r)
       | _, _ => none
-    | "call" :: np :: nk :: r =>
+    | "call" :: name :: np :: nk :: r =>
       match np.toNat?, nk.toNat? with
       | some np, some nk =>
         match parseEs np r with
-        | some (pos, r) => (parseK nk r).map fun (kws, r) => (.call pos kws, r)
+        | some (pos, r) => (parseK nk r).map fun (kws, r) => (.call name pos kws, r)
         | none => none
       | _, _ => none
+    | "filt" :: name :: np :: nk :: r =>
+      match np.toNat?, nk.toNat?, parseE r with
+      | some np, some nk, some (e, r) =>
+        match parseEs np r with
+        | some (pos, r) => (parseK nk r).map fun (kws, r) => (.filter name e pos kws, r)
+        | none => none
+      | _, _, _ => none
+    | "test" :: name :: np :: nk :: r =>
+      match np.toNat?, nk.toNat?, parseE r with
+      | some np, some nk, some (e, r) =>
+        match parseEs np r with
+        | some (pos, r) => (parseK nk r).map fun (kws, r) => (.test name e pos kws, r)
+        | none => none
+      | _, _, _ => none
+    | "ga" :: name :: r => (parseE r).map fun (e, r) => (.getAttr e name, r)
+    | "gi" :: r =>
+      match parseE r with
+      | some (e, r) => (parseE r).map fun (i, r) => (.getItem e i, r)
+      | none => none
+    | "sl" :: r =>
+      match parseE r with
+      | some (e, r) => match parseO r with
+        | some (a, r) => match parseO r with
+          | some (b, r) => (parseO r).map fun (c, r) => (.slice e a b c, r)
+          | none => none
+        | none => none
+      | none => none
+    | "if" :: r =>
+      match parseE r with
+      | some (c, r) => match parseE r with
+        | some (t, r) => (parseO r).map fun (f, r) => (.ifExpr c t f, r)
+        | none => none
+      | none => none
     | _ => none
+  partial def parseO : List String → Option (OptExpr × List String)
+    | "_" :: r => some (.none, r)
+    | r => (parseE r).map fun (e, r) => (.some e, r)
   partial def parseEs : Nat → List String → Option (Exprs × List String)
     | 0, r => some (.nil, r)
     | n + 1, r => match parseE r with
@@ -139,10 +175,6 @@ end
 
 /-! ### `Expr.WF`, decided -/
 
-def isUndef : V → Bool
-  | .undef => true
-  | _ => false
-
 mutual
   def wfE : Expr → Bool
     | .const v => !isUndef v
@@ -152,7 +184,15 @@ mutual
     | .not e | .neg e => wfE e
     | .bin _ l r => wfE l && wfE r
     | .cmp e ops => wfE e && (match ops with | .nil => false | _ => true) && wfC ops
-    | .call pos kws => wfEs pos && wfK kws
+    | .getAttr e _ => wfE e
+    | .getItem e i => wfE e && wfE i
+    | .slice e a b c => wfE e && wfO a && wfO b && wfO c
+    | .ifExpr c t f => wfE c && wfE t && wfO f
+    | .filter _ e pos kws | .test _ e pos kws => wfE e && wfEs pos && wfK kws
+    | .call _ pos kws => wfEs pos && wfK kws
+  def wfO : OptExpr → Bool
+    | .none => true
+    | .some e => wfE e
   def wfEs : Exprs → Bool
     | .nil => true
     | .cons e es => wfE e && wfEs es
@@ -177,47 +217,90 @@ def valOf (m : Mode) (e : Expr) : Option V :=
   | .ok v => some v
   | .error _ => none
 
+def valOfO (m : Mode) : OptExpr → Option V
+  | .none => some .none
+  | .some e => valOf m e
+
+def valsOf (m : Mode) (es : Exprs) : Option (List V) :=
+  match evalRtList prims m ρ0 es with
+  | .ok vs => some vs
+  | .error _ => none
+
+def kvalsOf (m : Mode) (ks : Kws) : Option (List (String × V)) :=
+  match evalRtKws prims m ρ0 ks with
+  | .ok vs => some vs
+  | .error _ => none
+
+def opName (op : BinOp) : String := match op with
+  | .add => "add" | .sub => "sub" | .mul => "mul" | .div => "div" | .fdiv => "fdiv" | .rem => "rem"
+  | .pow => "pow" | .cat => "cat" | .in_ => "in:nan" | .and => "and" | .or => "or" | _ => "cmp:nan"
+
+def why (ok : Bool) (reason : String) : List String := if ok then [] else [reason]
+
 mutual
-  def suppE (m : Mode) : Expr → Bool
-    | .const _ | .var _ => true
+  def suppE (m : Mode) : Expr → List String
+    | .const _ | .var _ => []
     | .list es | .tuple es => suppEs m es
     | .map ps => suppPs m ps
     | .not e => suppE m e
-    | .neg e => suppE m e && (match valOf m e with | some v => suppNeg v | none => true)
-    | .bin op l r => suppE m l && suppE m r &&
+    | .neg e => suppE m e ++ (match valOf m e with | some v => why (suppNeg v) "neg" | none => [])
+    | .bin op l r => suppE m l ++ suppE m r ++
       (match valOf m l, valOf m r with
-       | some a, some b => suppBin op a b
-       | _, _ => true)
-    | .cmp e ops => suppE m e && suppC m e ops
-    | .call pos kws => suppEs m pos && suppK m kws
-  def suppEs (m : Mode) : Exprs → Bool
-    | .nil => true
-    | .cons e es => suppE m e && suppEs m es
-  def suppPs (m : Mode) : Pairs → Bool
-    | .nil => true
-    | .cons k v r => suppE m k && suppE m v && suppPs m r &&
-      (match valOf m k with | some kv => !hasOdd kv | none => true)
-  def suppC (m : Mode) (left : Expr) : Chain → Bool
-    | .nil => true
-    | .cons op e r => suppE m e && suppC m e r &&
+       | some a, some b => why (suppBin op a b) (opName op)
+       | _, _ => [])
+    | .cmp e ops => suppE m e ++ suppC m e ops
+    | .getAttr e _ => suppE m e
+    | .getItem e i => suppE m e ++ suppE m i ++
+      (match valOf m e, valOf m i with
+       | some a, some b => why (suppGetItem a b) "getitem"
+       | _, _ => [])
+    | .slice e a b c => suppE m e ++ suppO m a ++ suppO m b ++ suppO m c ++
+      (match valOf m e, valOfO m a, valOfO m b, valOfO m c with
+       | some v, some x, some y, some z => why (suppSlice v x y z) "slice"
+       | _, _, _, _ => [])
+    | .ifExpr c t f => suppE m c ++ suppE m t ++ suppO m f
+    | .filter name e pos kws => suppE m e ++ suppEs m pos ++ suppK m kws ++
+      (match valOf m e, valsOf m pos, kvalsOf m kws with
+       | some v, some ps, some ks => why (suppFilter name (v :: ps) ks) ("filter:" ++ name)
+       | _, _, _ => [])
+    | .test name e pos kws => suppE m e ++ suppEs m pos ++ suppK m kws ++
+      (match valOf m e, valsOf m pos, kvalsOf m kws with
+       | some v, some ps, some ks => why (suppTest name (v :: ps) ks) ("test:" ++ name)
+       | _, _, _ => [])
+    | .call name pos kws => why (name == "kw") ("call:" ++ name) ++ suppEs m pos ++ suppK m kws
+  def suppO (m : Mode) : OptExpr → List String
+    | .none => []
+    | .some e => suppE m e
+  def suppEs (m : Mode) : Exprs → List String
+    | .nil => []
+    | .cons e es => suppE m e ++ suppEs m es
+  def suppPs (m : Mode) : Pairs → List String
+    | .nil => []
+    | .cons k v r => suppE m k ++ suppE m v ++ suppPs m r ++
+      (match valOf m k with | some kv => why (!hasOdd kv) "mapkey:nan" | none => [])
+  def suppC (m : Mode) (left : Expr) : Chain → List String
+    | .nil => []
+    | .cons op e r => suppE m e ++ suppC m e r ++
       (match valOf m left, valOf m e with
-       | some a, some b => suppCmp op a b
-       | _, _ => true)
-  def suppK (m : Mode) : Kws → Bool
-    | .nil => true
-    | .cons _ e r => suppE m e && suppK m r
+       | some a, some b => why (suppCmp op a b) "cmp:nan"
+       | _, _ => [])
+  def suppK (m : Mode) : Kws → List String
+    | .nil => []
+    | .cons _ e r => suppE m e ++ suppK m r
 end
 
 def showRes : Except Err V → String
   | .ok v => "ok " ++ showV v
   | .error .invalidOperation => "err:InvalidOperation"
   | .error .undefinedError => "err:UndefinedError"
-  | .error (.other n) => s!"err:Other{n}"
+  | .error (.named n) => s!"err:{n}"
 
 def modeOf : String → Option Mode
   | "lenient" => some .lenient | "chainable" => some .chainable
   | "semistrict" => some .semiStrict | "strict" => some .strict
   | _ => none
+
+def suppStr (rs : List String) : String := if rs.isEmpty then "1" else "0:" ++ ",".intercalate rs.eraseDups
 
 def b01 (b : Bool) : String := if b then "1" else "0"
 
@@ -229,7 +312,7 @@ def handle (line : String) : String :=
       let fold := match asConst prims e with
         | some v => "some " ++ showV v
         | none => "none"
-      s!"fold={fold}\tcomp={showRes (evalC prims m ρ0 e)}\trt={showRes (evalRt prims m ρ0 e)}\tsupp={b01 (suppE m e)}\twf={b01 (wfE e)}"
+      s!"fold={fold}\tcomp={showRes (evalC prims m ρ0 e)}\trt={showRes (evalRt prims m ρ0 e)}\tsupp={suppStr (suppE m e)}\twf={b01 (wfE e)}"
     | _, _ => "bad-case"
   | _ => "bad-case"
 
